@@ -495,6 +495,25 @@ def getLocalIdGt (limit : Nat) (ids : List String) (name : String) : List String
   | some i => (ids, i)
   | none => if ids.length > limit then (ids, noLocalId) else (ids ++ [name], ids.length % 256)
 
+/-- `depth_for_values` looking only at the FIRST `MergeSeq` operand instead of the deepest one -/
+def depthForValuesFirst (vs : List MS) : Nat :=
+  match vs.find? (fun v => match v with | .node _ _ => true | .leaf => false) with
+  | some v => v.stored + 1
+  | none => 1
+
+/-- `with_repr` on top of it -/
+def mkMergeSeqFirst (maxDepth : Nat) (vs : List MS) : MS :=
+  let d := depthForValuesFirst vs
+  if d > maxDepth then
+    let fl := flattenList vs
+    .node (depthForValuesFirst fl) fl
+  else .node d vs
+
+/-- a fresh concatenation `[i] + [i]` put in front of the accumulator, `k` times -/
+def freshFirst (maxDepth : Nat) : Nat → MS
+  | 0 => .leaf
+  | k + 1 => mkMergeSeqFirst maxDepth [mkMergeSeqFirst maxDepth [.leaf, .leaf], freshFirst maxDepth k]
+
 /-- `revindex0` with plain subtraction (`len - idx - 1`): fine inside the body, underflows on the
     exhausted loop object -/
 def revindex0Plain (idx len : Nat) : Chk Nat := do
